@@ -1,22 +1,22 @@
-\* C09: lifecycle arms on 2 replicas (delete / revive / purge racing edits), every apply arm exported
+\* C09: trimming and lag. 2 replicas, 1 entry; delete -> purge -> trim (window 2) racing edits and exchanges
 CONSTANTS
   N = 2
   Ids = {1}
   NewIds = {}
   Sids = {}
-  MaxTs = 4
+  MaxTs = 6
   MaxRepl = 3
   MaxWrites = 4
-  RecycleAge = 0
-  Window = 0
+  RecycleAge = 2
+  Window = 2
   MergeRestamp = TRUE
   NoSkew = TRUE
-  ArmQuota = 3
+  ArmQuota = 2
   EnableRename = FALSE
 INIT Init
 NEXT Next
 VIEW View
-INVARIANT InvConvergedButSessions
+INVARIANT InvNoDroppedDeletion
 INVARIANT ArmExport
 PROPERTY NoResurrection
 CHECK_DEADLOCK FALSE
